@@ -537,6 +537,14 @@ let () =
           (* a destination that needs an iterator (lazily transposed, view, other order) while the
              default engine's guard is satisfied *)
           let gn = if gn = "UNGUARDED" && List.exists (fun d -> layout_tag !m d <> "") dests then "dest-needs-iterator" else gn in
+          (* which operand the destination aliases: the engines copy the LEFT operand into the
+             destination first, so a destination that is the RIGHT operand is their known weak spot *)
+          let mixed = List.exists (fun t -> String.contains t 'c') tags && List.exists (fun t -> not (String.contains t 'c')) tags in
+          let gn = if gn = "dest-alias" && mixed then "order-mix" else gn in
+          let gn = if gn = "dest-alias" then
+              (match operand_ids ops.(!k) with
+               | [_; b] when List.mem b dests -> "dest-alias-right"
+               | _ -> "dest-alias-left") else gn in
           (* the option mode, and whether a destination tensor has another shape than the operand
              (it is then reshaped by the option handling) *)
           let mode = List.fold_left (fun acc tok ->
